@@ -183,8 +183,13 @@ func (t *fnTrans) ownEntry() {
 		case "takes", "cond":
 			init = store(init, t.val(p), "1")
 			if t.g.paramMode(t.fn, p.Name(), i) == "cond" {
-				// API precondition: a message given to Send* is exclusively the caller's
-				t.assume(not(t.sharedGet(t.val(p))))
+				// API precondition (C17 "Send takes ownership"): a message given to Send* is
+				// exclusively the caller's -- unless the function's contract says
+				// `accepts_shared m` (raw BUS forwarding: a bridge may Clone and re-send), in
+				// which case every Header/Body edit needs a MakeUnique first (own.write_shared).
+				if fc := t.g.contractOf(t.fn); fc == nil || !fc.acceptsShared[p.Name()] {
+					t.assume(not(t.sharedGet(t.val(p))))
+				}
 			}
 		}
 	}
